@@ -129,12 +129,16 @@ def run_text(text):
     out = os.path.join(_worker_dir, "out", "t.eql.rs")
     if os.path.exists(out):
         os.unlink(out)
-    try:
-        p = subprocess.run([common.EQLOG_BIN, os.path.join(_worker_dir, "src"), os.path.join(_worker_dir, "out")],
-                           stdout=subprocess.PIPE, stderr=subprocess.PIPE, timeout=20, env=common.env_offline({"RUST_BACKTRACE": "0"}))
-        return p.returncode, p.stderr.decode("utf-8", "replace"), False
-    except subprocess.TimeoutExpired:
-        return -1, "", True
+    # a run that exceeds 20 s is repeated once with a generous limit, so that machine load cannot
+    # turn into a verdict; only a run that still does not finish counts as a hang
+    for limit in (20, 300):
+        try:
+            p = subprocess.run([common.EQLOG_BIN, os.path.join(_worker_dir, "src"), os.path.join(_worker_dir, "out")],
+                               stdout=subprocess.PIPE, stderr=subprocess.PIPE, timeout=limit, env=common.env_offline({"RUST_BACKTRACE": "0"}))
+            return p.returncode, p.stderr.decode("utf-8", "replace"), False
+        except subprocess.TimeoutExpired:
+            continue
+    return -1, "", True
 
 
 def _job(args):
